@@ -44,7 +44,24 @@ def inputs():
     reassigned = gen.pdb_text([p1 + p2, w1[:1], p3, w1[1:]])
     # coordinates that fill their columns (x, y, z <= -100 or >= 1000)
     wide = gen.pdb_text([gen.transform(a + w[:1], t=(-95.0, -150.0, -120.0)), gen.transform(b + w[1:], t=(1005.0, 995.0, 1100.0))])
-    return {"two-chains-pro": two, "neutral": neutral, "neutral-free": neutral_free, "reassigned": reassigned, "wide": wide}
+    # atoms of each residue in an unusual order (side chain first, backbone last), as some programs write them
+    def backbone_last(atoms):
+        out, cur, key = [], [], None
+        for x in atoms + [None]:
+            k = None if x is None else (x["chain"], x["resseq"])
+            if k != key and cur:
+                out += [y for y in cur if y["name"] not in ("N", "CA", "C", "O")] + [y for y in cur if y["name"] in ("C", "O", "N", "CA")][::-1]
+                cur = []
+            key = k
+            if x is not None:
+                cur.append(x)
+        return out
+    unordered = gen.pdb_text([backbone_last(a) + w[:1], backbone_last(b) + w[1:]])
+    # the left-most heavy atom at x = -999.950: atoms added next to it fall below -1000 (a field that overflows)
+    xmin = min(x["xyz"][0] for x in a + b + w)
+    edge = gen.pdb_text([gen.transform(a + w[:1], t=(-999.95 - xmin, 0, 0)), gen.transform(b + w[1:], t=(-999.95 - xmin, 0, 0))])
+    return {"two-chains-pro": two, "neutral": neutral, "neutral-free": neutral_free, "reassigned": reassigned, "wide": wide,
+            "unordered": unordered, "edge": edge}
 
 
 def parse_pqr(text, ws=None):
@@ -194,6 +211,13 @@ def run(ctx):
         a2 = a1 + [FORMAT_ARGS[k].replace("@FFOUT@", "CHARMM") for k in toggled]
         jobs.append({"kind": "format", "input1": texts["wide"], "input2": texts["wide"], "args1": a1, "args2": a2, "toggled": toggled,
                      "what": f"wide-coordinates toggled={toggled}"})
+    for inp_, toggles in (("unordered", (["pdbOut"], ["pdbOut", "whitespace"], ["apbsIn"], ["keepChain"])),
+                          ("edge", (["whitespace"], ["whitespace", "keepChain"], ["pdbOut"]))):
+        for toggled in toggles:
+            a1 = ["--ff=AMBER"]
+            a2 = a1 + [FORMAT_ARGS[k].replace("@FFOUT@", "CHARMM") for k in toggled]
+            jobs.append({"kind": "format", "input1": texts[inp_], "input2": texts[inp_], "args1": a1, "args2": a2, "toggled": toggled,
+                         "what": f"{inp_} toggled={toggled}"})
     # titration at pH values where the force fields differ in the states they can name, with another naming scheme
     for ff, ffout, ph in (("PARSE", "AMBER", 12), ("PARSE", "CHARMM", 12), ("AMBER", "PARSE", 12), ("PARSE", "AMBER", 1), ("CHARMM", "PARSE", 13))[:(3 if ctx.quick else 5)]:
         a1 = [f"--ff={ff}", "--titration-state-method=propka", f"--with-ph={ph}"]
